@@ -59,6 +59,8 @@ THEOREMS = [
     "SleapVerif.C04.warpS_inv",
     "SleapVerif.C04.augment_registered_square",
     "SleapVerif.C04.augment_translation_offset",
+    "SleapVerif.C04.chain_offset_exact",
+    "SleapVerif.C04.chain_registered_iff_lt_three",
 ]
 
 TOL_CONTENT = 0.15   # px: measured blob centroid vs model content map (observed ≤ 0.03 on the pinned tree)
@@ -339,7 +341,7 @@ def judge_pad(chk, c, obs, outs):
 
 
 # ---- shared: measuring a set of points on an output image -------------------
-def compare_points(chk, c, what, img2d, model_pts, impl_kps, sigma_out, sigs_fn, hist, skip_measure=False, area=None):
+def compare_points(chk, c, what, img2d, model_pts, impl_kps, sigma_out, sigs_fn, hist, skip_measure=False, area=None, src=None):
     """model_pts: [{'content','kp'}], impl_kps: [(x,y)|None]; `area` = (h, w) of the part of the
     output that carries content (the rest is stride padding). Returns True when all agree."""
     ok = True
@@ -353,6 +355,12 @@ def compare_points(chk, c, what, img2d, model_pts, impl_kps, sigma_out, sigs_fn,
             ok = False
         if skip_measure:
             continue
+        if src is not None:
+            sh, sw, spts, ssig = src
+            sx, sy = spts[i]
+            if not (3 * ssig <= sx <= sw - 1 - 3 * ssig and 3 * ssig <= sy <= sh - 1 - 3 * ssig):
+                STATS["blob_outside_or_border"] += 1    # blob already truncated in the source frame
+                continue
         cx, cy = mp["content"]
         m = 3.0 * sigma_out + 1.5
         if not (m <= cx <= W - 1 - m and m <= cy <= H - 1 - m):
@@ -404,6 +412,13 @@ def signatures(f_total, inexact_sm, inexact_rs, post_scale=1.0, aug_scale=1.0):
                 s.append("target_size_rounding")
         return s
     return fn
+
+
+def sm_tie(h, w, mh, mw):
+    """round() of the size matcher sits on an exact tie k + ½ (evaluated in doubles by the code:
+    either neighbour may come out) — a knife-edge."""
+    applied, eff, _ = sm_facts(h, w, mh, mw)
+    return applied and ((h * eff).denominator == 2 or (w * eff).denominator == 2)
 
 
 def sm_facts(h, w, mh, mw):
@@ -464,6 +479,8 @@ def judge_sm(chk, c, obs, outs):
         ok = False
     mc = parse_chain(outs[1])
     applied_f, eff, inexact = sm_facts(c["h"], c["w"], c["mh"], c["mw"])
+    if sm_tie(c["h"], c["w"], c["mh"], c["mw"]) and (obs["th"], obs["tw"]) != (th, tw):
+        return ok   # the code rounded the tie the other way: the model's content map is for the other target
     kps = [(x * obs["eff"], y * obs["eff"]) for x, y in c["pts"]]   # what every caller does with eff_scale
     ok &= compare_points(chk, c, "apply_sizematcher", obs["_img"], mc["pts"], kps, c["sigma"] * float(eff),
                          signatures(eff, inexact, False), chk.hist)
@@ -547,7 +564,8 @@ def judge_crop(chk, c, obs, outs):
         chk.disagree("generate_crops centroid == model ((bw-1)/2, (bh-1)/2)", c, obs["centroid"], mc["centroid"])
         ok = False
     ok &= compare_points(chk, c, "generate_crops", obs["_img"], mc["pts"], [tuple(p) for p in obs["kps"]],
-                         c["sigma"], signatures(Fraction(1), False, False), chk.hist)
+                         c["sigma"], signatures(Fraction(1), False, False), chk.hist,
+                         src=(c["h"], c["w"], c["pts"], c["sigma"]))
     return ok
 
 
@@ -785,6 +803,9 @@ def judge_ds(chk, c, obs, outs):
         w1 = c["max_hw"][1] if (applied and c["max_hw"][1]) else fr["w"]
         if c.get("decimal") and ((h1 * s).denominator == 1 or (w1 * s).denominator == 1):
             chk.knife_edges += 1   # n·s integral for a decimal s: int(n * s) in doubles may land either side
+            continue
+        if sm_tie(fr["h"], fr["w"], c["max_hw"][0], c["max_hw"][1]):
+            chk.knife_edges += 1   # round() tie in the size matcher
             continue
         # exact sizes
         if it["shape"] != [mc["H"], mc["W"]]:
@@ -1220,14 +1241,14 @@ def main(chk: Check):
                 cases.append(c)
 
     add(gen_pad, chk.n(150, 1500))
-    add(gen_sm, chk.n(60, 600), "main")
-    add(gen_rs, chk.n(60, 600), "main")
+    add(gen_sm, chk.n(100, 800), "main")
+    add(gen_rs, chk.n(100, 800), "main")
     add(gen_crop, chk.n(60, 600))
     add(gen_cropsize, chk.n(80, 800))
     add(gen_aug, chk.n(30, 300), "int")
-    add(gen_aug, chk.n(50, 500), "geo")
+    add(gen_aug, chk.n(80, 600), "geo")
     for cls in ("BottomUp", "Single", "Centroid", "Centered"):
-        add(gen_ds, chk.n(36, 360), cls, "main")
+        add(gen_ds, chk.n(60, 500), cls, "main")
     n_main = len(cases)
     # ---- regions the partial theorems exclude (search, not proof coverage)
     add(gen_sm, chk.n(15, 150), "ge3")
